@@ -49,6 +49,19 @@ def accessors(classes=None):
     return us
 
 
+def beat_values():
+    """how a timing string becomes beats and values: Beat from text / decimals, rounding, BeatValues.from_str (C14's units)"""
+    import props.C14 as c
+    want = ("Beat.__new__[str]", "Beat.__new__[Decimal]", "Beat.__new__[float]", "Beat.from_str", "Beat.round_to_tick", "BeatValues.from_str")
+    return [u for u in c.UNITS if u.name in want]
+
+
+def engine_core():
+    """the state machine the look-ups stand on (C11's units)"""
+    import props.C11 as c
+    return [u for u in c.UNITS]
+
+
 def note_readers():
     """NoteData decoding and the note ordering (C07's units)"""
     import props.C07 as c
